@@ -3,7 +3,8 @@
    they hold for every configuration and EVERY list of input items. *)
 From Coq Require Import ZArith List Bool Lia.
 From OF Require Import Base.Str Proto.Wire Proto.Receiver Proto.Receiver_Lemmas Proto.Receiver_Safety
-                       Proto.Receiver_Generic Proto.Receiver_Complete Proto.Sender Proto.Sender_Safety Proto.MQGlue.
+                       Proto.Receiver_Generic Proto.Receiver_Complete Proto.Receiver_Order Proto.Sender Proto.Sender_Safety Proto.MQGlue
+                       Proto.EdgeG Proto.EdgeN Proto.Edge_Inst Proto.Edge.
 Import ListNotations.
 Open Scope Z_scope.
 
@@ -96,3 +97,49 @@ Proof.
   eexists. vm_compute. split; [repeat (try (left; reflexivity); right)|reflexivity].
 Qed.
 Print Assumptions C01_nonvacuous.
+
+(* THE LOSSLESS SYNCHRONIZED JOIN (the tee re-joined, sources in lock step).  N synchronized sources whose publishers
+   publish the same id sequence; per id the topic names the sources deliver are distinct.  Every socket is handed its
+   publisher's stream in order ([EdgeN.fed]); deliveries to different sockets interleave freely, polls report any subset
+   in any order, calls time out anywhere.  Then the sets handed to the application are exactly the first k ROWS: for
+   every id the frames of ALL sources (source order), none skipped - not even the first -, none repeated, none mixed. *)
+Theorem C01_join_lossless :
+  forall N rows cid ll its,
+    (0 < N)%nat -> Forall (row_ok group_wf frameA N) rows -> increasing_from MSG_ID_INITIAL_PREV (map rid rows) ->
+    EdgeN.fed SubAll N (map (fun i => xstream vparts (col rows i)) (seq 0 N)) its ->
+    exists k, frames (snd (rrun Repaired (init_receiver cid false ll (repeat (cX SubAll) N)) its))
+              = map (frame_ofN frameA) (firstn k rows).
+Proof. exact joinA_lossless. Qed.
+Print Assumptions C01_join_lossless.
+
+(* ... and for explicit subscriptions with renaming (one subscription form for all sources) *)
+Theorem C01_join_lossless_explicit :
+  forall tm N rows cid ll its,
+    tm <> [] -> NoDup (map fst tm) -> NoDup (map snd tm) -> Forall (fun sd => fst sd <> []) tm ->
+    (0 < N)%nat -> Forall (row_ok group_wf (frameE tm) N) rows -> increasing_from MSG_ID_INITIAL_PREV (map rid rows) ->
+    EdgeN.fed (mdE tm) N (map (fun i => xstream (xpartsE tm) (col rows i)) (seq 0 N)) its ->
+    exists k, frames (snd (rrun Repaired (init_receiver cid false ll (repeat (cX (mdE tm)) N)) its))
+              = map (frame_ofN (frameE tm)) (firstn k rows).
+Proof. exact joinE_lossless. Qed.
+Print Assumptions C01_join_lossless_explicit.
+
+(* Non-vacuity of the join: two sources, ids 0 and 4; source 1 runs ahead (its id 4 is queued before source 0 has sent
+   id 0), polls report the sockets in both orders, one call times out holding half a row *)
+Definition exJ_rows : list (list group) :=
+  [ [ {| gid := 0; gsid := 1; parts := [([97], 10)] |}; {| gid := 0; gsid := 2; parts := [([98], 20); ([99], 21)] |} ];
+    [ {| gid := 4; gsid := 1; parts := [([97], 11)] |}; {| gid := 4; gsid := 2; parts := [([98], 22)] |} ] ].
+Definition exJ_m (i k : nat) : wmsg := nth k (xstream vparts (col exJ_rows i)) (hb_msg dg).
+Definition exJ_its : list ritem :=
+  [ IDeliver 1 (exJ_m 1 0); IDeliver 1 (exJ_m 1 1); IDeliver 1 (exJ_m 1 2); IDeliver 1 (exJ_m 1 3);   (* source 1: all of id 0, first of id 4 *)
+    ICall None (Some 5) 0; IPoll [1%nat] 0; IPoll [1%nat] 0; IPoll [] 1; IPoll [] 9000000;             (* half a row: times out *)
+    IDeliver 0 (exJ_m 0 0); IDeliver 0 (exJ_m 0 1);
+    ICall None None 10000000; IPoll [0%nat] 10000000; IPoll [] 10000000;                               (* row 0 *)
+    IDeliver 0 (exJ_m 0 2); IDeliver 0 (exJ_m 0 3); IDeliver 1 (exJ_m 1 4);
+    ICall None None 20000000; IPoll [0%nat; 1%nat] 20000000; IPoll [1%nat; 0%nat] 20000000; IPoll [] 20000000 ].   (* stale heartbeats, row 4 *)
+Theorem C01_join_nonvacuous :
+  joinA_hyps 2 exJ_rows exJ_its = true /\
+  map (fun fr => (fst fr, map (fun kv => (fst kv, st_pay (snd kv), st_src (snd kv))) (snd fr)))
+      (frames (snd (rrun Repaired (init_receiver 7 false false (repeat (cX SubAll) 2)) exJ_its)))
+  = [(0, [([97], 10, 0%nat); ([98], 20, 1%nat); ([99], 21, 1%nat)]); (4, [([97], 11, 0%nat); ([98], 22, 1%nat)])].
+Proof. split; vm_compute; reflexivity. Qed.
+Print Assumptions C01_join_nonvacuous.
